@@ -3,14 +3,16 @@ package main
 // defaultModels maps library functions to Go models defined in the harness runtime file
 // (rt_models.go). A model is used only if the harness package defines it.
 var defaultModels = map[string]string{
-	"errors.Is":                       "verifModelErrorsIs",
-	"errors.As":                       "verifModelErrorsAs",
-	"errors.Unwrap":                   "verifModelErrorsUnwrap",
-	"errors.Join":                     "verifModelErrorsJoin",
-	"fmt.Errorf":                      "verifModelErrorf",
-	"sort.Slice":                      "verifModelSortSlice",
+	"errors.Is":                        "verifModelErrorsIs",
+	"errors.As":                        "verifModelErrorsAs",
+	"errors.Unwrap":                    "verifModelErrorsUnwrap",
+	"errors.Join":                      "verifModelErrorsJoin",
+	"fmt.Errorf":                       "verifModelErrorf",
+	"sort.Slice":                       "verifModelSortSlice",
 	"golang.org/x/exp/slices.SortFunc": "verifModelSortFunc",
-	"slices.SortFunc":                 "verifModelSortFunc",
-	"go.uber.org/multierr.Combine":    "verifModelMultierrCombine",
-	"go.uber.org/multierr.Append":     "verifModelMultierrAppend",
+	"slices.SortFunc":                  "verifModelSortFunc",
+	"go.uber.org/multierr.Combine":     "verifModelMultierrCombine",
+	"go.uber.org/multierr.Append":      "verifModelMultierrAppend",
+	"encoding/binary.Write":            "verifModelBinaryWrite",
+	"encoding/binary.Read":             "verifModelBinaryRead",
 }
